@@ -139,3 +139,19 @@ def keStep (st : KeSt) (ops : List String) (_impl : String) : KeSt × String :=
 def keStream : Stream := { σ := KeSt, init := {}, step := keStep }
 
 end P2PVerif.Driver
+
+namespace P2PVerif.Driver
+open P2PVerif
+
+/-- `replay` stream: the wireguard replay filter alone -/
+def replayStep (f : Replay.Filter) (ops : List String) (_impl : String) : Replay.Filter × String :=
+  match ops with
+  | ["rp-new"] => (Replay.Filter.empty, "ok")
+  | ["rp", c, lim] =>
+    let (f', ok) := Replay.validate f (natArg c) (natArg lim)
+    (f', if ok then "1" else "0")
+  | _ => (f, "bad-op")
+
+def replayStream : Stream := { σ := Replay.Filter, init := Replay.Filter.empty, step := replayStep }
+
+end P2PVerif.Driver
